@@ -67,7 +67,7 @@ def gen_module_init(tier, rng):
             cfg = dict(rng.choice(cfgs) if 'value' in cls.accessibles else {}, description='d')
             if name == 'other' and 'mode' in cfg:
                 cfg = {'description': 'd'}
-            obj = object.__new__(cls)
+            obj = cls.__new__(cls)          # Module.__new__ creates the instance of the wrapper class
             others = _class_accessibles(classes) + [list(m.accessibles.values()) for _n, m in made]
             before = describe()
             yield dict(label=f'order={order} create {name} cfg={cfg}', self=obj,
